@@ -644,6 +644,16 @@ func adjustAdaptationSetForTimelineNr(cfg *ResponseConfig, se segEntries, as *m.
 }
 
 func adjustAdaptationSetForSegmentNumber(cfg *ResponseConfig, a *asset, as *m.AdaptationSetType) error {
+	if as.ContentType == "audio" && as.SegmentTemplate.Duration != nil && a.refRep != nil && len(a.refRep.Segments) > 0 {
+		// Live audio segments follow the reference (video) segments, so a VoD audio duration
+		// that differs from the average reference duration does not describe the live segments.
+		st := as.SegmentTemplate
+		declared := uint64(*st.Duration) * uint64(len(a.refRep.Segments)) * uint64(a.refRep.MediaTimescale)
+		actual := uint64(a.refRep.duration()) * uint64(st.GetTimescale())
+		if declared != actual {
+			st.Duration = nil
+		}
+	}
 	if as.SegmentTemplate.Duration == nil {
 		r0 := as.Representations[0]
 		rep0 := a.Reps[r0.Id]
